@@ -183,7 +183,8 @@ def run(st, tier, seed):
         for bad, why in ((t1.replace("?" + wc, "?" + wc + " ?N", 1), "two wildcards"),
                          (t1.replace(" : %d" % L, "", 1), "wildcard without length"),
                          (t1.replace(" : %d" % L, " : %d" % max(0, L - w - 1), 1) if fixed + extra_items_len > 0 else None, "negative remainder"),
-                         (t2.replace(" : %d" % L, " : %d" % (L + 1), 1), "declared length disagrees")):
+                         (t2.replace(" : %d" % L, " : %d" % (L + 1), 1), "declared length disagrees"),
+                         (t1.replace(" : %d" % L, " : %d.5" % L, 1), "declared length that is not a whole number")):
             if bad is None or bad in (t1, t2):
                 continue
             # without the structure lines: their sizes were written for the well-formed statement and would refuse the malformed
